@@ -3,6 +3,10 @@
 # (change applied through go build -overlay; /repo untouched) and writes seeded/RESULTS.md.
 cd "$(dirname "$0")/.."
 OUT=seeded/RESULTS.md
+if [ -n "${1:-}" ] && [ -f $OUT ]; then
+  # partial run: keep the other rows, replace the rows of the selected seeds
+  grep -v "^| [^|]*$1" $OUT > $OUT.tmp; mv $OUT.tmp $OUT
+else
 {
 echo "# Seeded changes versus checks"
 echo
@@ -11,6 +15,7 @@ echo
 echo "| seeded change | property | check | verdict | signatures reported |"
 echo "|---|---|---|---|---|"
 } > $OUT
+fi
 for d in seeded/*/; do
   n=$(basename $d)
   [ -n "${1:-}" ] && [[ "$n" != *"$1"* ]] && continue
